@@ -1,8 +1,46 @@
-/- Driver ops for C07 (none yet). -/
+/- Driver ops for C07/C08: the index-level model of `_build_tree`. -/
 import Xrfmv.Drv.Common
+import Xrfmv.Model.BuildIndex
+
+open Lean Xrfmv.Drv
 
 namespace Xrfmv.Drv.C07
+open Xrfmv.BuildIndex
 
-def ops : List (String × Handler) := []
+def pathStr (p : List Bool) : String := String.mk (p.map fun b => if b then '1' else '0')
+
+def lookupList (tbl : Json) (p : List Bool) : List Nat :=
+  match tbl.getObjValAs? (List Nat) (pathStr p) with
+  | .ok l => l
+  | .error _ => []
+
+/-- `{"op":"buildindex","L":..,"ns":null|k,"minVal":..,"n":..,"sort":{path:[..]},"perm":{path:[..]},
+"nval":{path:k},"ov":[..],"frac":[..]}`; paths are strings of 0 (left) / 1 (right), the root is "". -/
+def opBuildIndex : Handler := fun j => do
+  let L ← j.getObjValAs? Nat "L"
+  let n ← j.getObjValAs? Nat "n"
+  let minVal ← j.getObjValAs? Nat "minVal"
+  let ov ← j.getObjValAs? (Array Int) "ov"
+  let frac ← j.getObjValAs? (Array Int) "frac"
+  let sortT ← j.getObjVal? "sort"
+  let permT ← j.getObjVal? "perm"
+  let nvalT ← j.getObjVal? "nval"
+  if ov.size < n + 1 ∨ frac.size < n + 1 then throw "bad-op: tables shorter than n+1"
+  let ns : Option Nat := match j.getObjValAs? Nat "ns" with
+    | .ok k => some k
+    | .error _ => none
+  let cfg : Cfg := { maxLeaf := L, nsplits := ns, minVal := minVal }
+  let O : Oracles := {
+    sortO := fun p _ => lookupList sortT p
+    permO := fun p _ => lookupList permT p
+    nvalO := fun p => match nvalT.getObjValAs? Nat (pathStr p) with | .ok k => k | .error _ => 0
+    ov := fun m => ov.getD m 0
+    frac := fun m => frac.getD m 0 }
+  let (t, c) := build cfg O (n + 2 + ns.getD 0) [] (List.range n) true 0
+  let leaves := t.leaves.map fun l =>
+    Json.mkObj [("path", toJson (pathStr l.1)), ("centers", toJson l.2.1), ("moved", toJson l.2.2)]
+  pure <| Json.mkObj [("ok", toJson t.ok), ("count", toJson c), ("leaves", toJson leaves)]
+
+def ops : List (String × Handler) := [("buildindex", opBuildIndex)]
 
 end Xrfmv.Drv.C07
